@@ -301,22 +301,26 @@ Proof.
   - apply (bar_evs_hist_ok ops t0 (bar_new Rar len t0) (BInv_new len t0) Hn).
 Qed.
 
-(** FINITE / NON-NEGATIVE / NO PANIC, strictly after creation or the last restart *)
+(** FINITE / NON-NEGATIVE / NO PANIC after EVERY history (the instant of a restart included: the
+    code returns 0 there since fix 56491a5).  eta() and duration() always return; per_sec() >= 0 for
+    a bar in progress, and for a finished bar strictly after its start (pos / elapsed); the
+    divisions that are executed have positive divisors. *)
 Theorem bar_finite_nonneg : forall len t0 ops, no_wrap ops t0 ->
   let b := fst (run_state Rar ops t0 (bar_new Rar len t0)) in
   let now := snd (run_state Rar ops t0 (bar_new Rar len t0)) in
-  (start_time (b_est b) < now)%N ->
-  0 < 1 - W (secs (now - start_time (b_est b))) /\
-  0 < secs (now - b_started b) /\
-  0 <= bar_per_sec Rar b now /\
   (exists d, bar_eta Rar b now = Some d) /\
-  (exists d, bar_duration Rar b now = Some d).
+  (exists d, bar_duration Rar b now = Some d) /\
+  (b_done b = false -> 0 <= bar_per_sec Rar b now) /\
+  (b_done b = false -> (now <= start_time (b_est b))%N -> bar_per_sec Rar b now = 0) /\
+  ((b_started b < now)%N -> 0 < secs (now - b_started b) /\ 0 <= bar_per_sec Rar b now) /\
+  ((start_time (b_est b) < now)%N -> 0 < 1 - W (secs (now - start_time (b_est b)))).
 Proof.
-  intros len t0 ops Hn b now Hst.
-  destruct (bar_after len t0 ops Hn) as ((Hwf & HJ & Ht & Hs) & _). fold b in Hwf, HJ, Ht, Hs. fold now in Ht.
-  assert (Hden : 0 < 1 - W (secs (now - start_time (b_est b)))) by (apply denominator_pos; lia).
-  assert (Hel : 0 < secs (now - b_started b)) by (apply secs_pos; change (T Rar) with R in *; lia).
-  assert (Hsps : 0 <= est_sps Rar (b_est b) now) by (now apply sps_nonneg).
+  intros len t0 ops Hn b now.
+  destruct (bar_after len t0 ops Hn) as ((Hwf & HJ & Ht & Hs) & He & Hh).
+  fold b in Hwf, HJ, Ht, Hs, He. fold now in Ht.
+  change (T Rar) with R in *.
+  assert (Hsps : 0 <= est_sps Rar (b_est b) now).
+  { rewrite He. apply (finite_nonneg _ t0 now Hh). rewrite <- He. exact Ht. }
   assert (Heta : exists d, bar_eta Rar b now = Some d).
   { destruct (b_done b) eqn:Hd; [eexists; now apply eta_done|].
     destruct (b_len b) as [l|] eqn:Hl; [|eexists; now apply eta_no_len].
@@ -327,12 +331,17 @@ Proof.
       + eexists. now apply H1.
       + destruct (H2 Hge) as (d & Hd' & _). now exists d.
     - eexists. apply eta_no_rate. apply is_zero_R_true. now symmetry. }
-  repeat split; try assumption.
-  - unfold bar_per_sec. destruct (b_done b); [|exact Hsps].
-    cbn [div of_int Rar]. rewrite dur_secs_R. unfold since. apply div_nonneg; [|exact Hel].
-    apply IZR_le. lia.
+  split; [exact Heta|]. split; [|split; [|split; [|split]]].
   - rewrite duration_sum_gen. destruct (b_len b); [|now eexists].
     destruct (b_done b); [now eexists|]. destruct Heta as [d Hd]. rewrite Hd. now eexists.
+  - intros Hd. unfold bar_per_sec. rewrite Hd. exact Hsps.
+  - intros Hd Hle. unfold bar_per_sec. rewrite Hd. now apply est_sps_R_restart.
+  - intros Hst.
+    assert (Hel : 0 < secs (now - b_started b)) by (apply secs_pos; lia).
+    split; [exact Hel|]. unfold bar_per_sec. destruct (b_done b); [|exact Hsps].
+    cbn [div of_int Rar]. rewrite dur_secs_R. unfold since. apply div_nonneg; [|exact Hel].
+    apply IZR_le. lia.
+  - intros Hst. apply denominator_pos. lia.
 Qed.
 
 (** BOUNDS: between zero and the largest rate of a recorded segment; envelope 2*M*W(stall) *)
@@ -579,7 +588,7 @@ Qed.
 
 Lemma wit_sps_value : est_sps Rar wit_e 30000000000 = 8199 / 99.
 Proof.
-  unfold wit_e. rewrite est_sps_R. cbn [sm dsm prev_time start_time].
+  unfold wit_e. rewrite est_sps_R by (cbn [start_time]; lia). cbn [sm dsm prev_time start_time].
   change (30000000000 - 30000000000)%N with 0%N.
   change (30000000000 - 0)%N with 30000000000%N.
   rewrite secs_0, secs_30, W_0, W_30. unfold sps_R. lra.
@@ -790,18 +799,22 @@ Proof.
   intros Hno. apply eta_no_rate. apply is_zero_R_true. change (T Rar) with R. rewrite He. now apply P2.
 Qed.
 
-(** FINITE at the instant of a recorded backwards seek is REFUTED: the normaliser is 0 there
-    (the binary64 code computes 0 * 1 / 0 = NaN).  History without any reset: create at 0;
-    update(set_pos 10) at 1 s; update(set_pos 5) at 2 s; query at 2 s *)
+(** REGRESSION statement about the code before fix 56491a5: at the instant of a recorded
+    backwards seek (no reset anywhere; strictly after creation) the normaliser by which
+    [est_sps_pre_56491a5] divides is 0 (binary64: 0 * 1 / 0 = NaN); the current code reports 0.
+    History: create at 0; update(set_pos 10) at 1 s; update(set_pos 5) at 2 s; query at 2 s *)
 Definition rewind_wit_ops : list eop := [Adv 1000000000; UpdPos 10; Adv 1000000000; UpdPos 5].
 
-Theorem bar_rewind_instant_refuted :
+Theorem bar_rewind_instant_pre_56491a5 :
   exists len t0 ops,
     no_wrap ops t0 /\ forallb (fun o => negb (is_reset_op o)) ops = true /\
     let b := fst (run_state Rar ops t0 (bar_new Rar len t0)) in
     let now := snd (run_state Rar ops t0 (bar_new Rar len t0)) in
     b_done b = false /\ (t0 < now)%N /\ (b_started b < now)%N /\
-    1 - W (secs (now - start_time (b_est b))) = 0.
+    1 - W (secs (now - start_time (b_est b))) = 0 /\
+    est_sps_pre_56491a5 Rar (b_est b) now =
+      sps_R (sm (b_est b)) (dsm (b_est b)) (W (secs (now - prev_time (b_est b)))) 0 /\
+    bar_per_sec Rar b now = 0.
 Proof.
   exists (Some 100%N), 0%N, rewind_wit_ops.
   assert (Hn : no_wrap rewind_wit_ops 0).
@@ -823,5 +836,11 @@ Proof.
   rewrite est_record_rewind in He by (cbn; lia).
   rewrite Hclk. change (T Rar) with R in *. rewrite He. cbn [start_time].
   split; [reflexivity|]. split; [lia|]. split; [cbn; lia|].
-  rewrite N.sub_diag, secs_0, W_0. lra.
+  assert (Z : 1 - W (secs (2000000000 - 2000000000)) = 0) by (rewrite N.sub_diag, secs_0, W_0; lra).
+  split; [exact Z|]. split.
+  - rewrite est_sps_pre_R. cbn [start_time prev_time sm dsm]. rewrite Z. reflexivity.
+  - unfold bar_per_sec.
+    assert (Hd : b_done (fst (run_state Rar rewind_wit_ops 0 (bar_new Rar (Some 100%N) 0))) = false)
+      by reflexivity.
+    rewrite Hd. change (T Rar) with R in *. rewrite He. apply est_sps_R_restart. cbn [start_time]. lia.
 Qed.
